@@ -79,6 +79,13 @@ var sessCorpus = []struct {
 	// … and the same for the request's own start element
 	{"i:0:e:r:q", "c0,o0,s0,pi9r,pi0r,g,h,k0"},
 	{"m:3:c:r:q,i:9:e:r", "c0,o0,c1,o1,s0,s1,pm9e,pm3e,g,h,k0,pi9r,g,h,k1"},
+	// round E (review A C06-4): a second call REGISTERS (and transmits) while the serve loop is
+	// parked behind its look-up / inside the hand-off select / waiting for the close — a lock held
+	// across the hand-off would stall exactly here
+	{"i:0:e:r,i:1:e:r", "c0,o0,pi0r,c1,o1,g,s0,h,k0,s1,pi1r,g,h,k1"},
+	{"i:0:e:r,i:1:e:r", "c0,o0,pi0r,g,c1,o1,s1,s0,h,k0,pi1r,g,h,k1"},
+	{"i:0:e:r,m:1:c:e", "c0,o0,s0,pi0r,g,h,c1,o1,s1,k0,pm1e,g,h,k1"},
+	{"i:0:e:r,i:1:e:r", "c0,o0,s0,pi0r,g,c1,x1,o1,s1,h,k0"},
 }
 
 // every stanza kind x type (result, error; normal, get, set) x id (two requester ids and an
@@ -216,6 +223,10 @@ func Run(r *common.Run) error {
 				runRcpt(r, parseIDs(f[2]), replayable(f[3]), "replay")
 			case "wrap":
 				runWrap(r, f[2][0], f[3], "replay")
+			case "key":
+				if k, ok := parseKeyLine(f[1:]); ok {
+					runKey(r, k, "replay")
+				}
 			}
 		}
 		return nil
@@ -230,6 +241,9 @@ func Run(r *common.Run) error {
 		}
 	}
 	for n, c := range sessCorpus {
+		if r.Hist["problem"] >= 8 || len(r.Failures) >= 60 {
+			break // a broken tree costs a watchdog per case
+		}
 		r.Mark("case sess-corpus %d", n)
 		runSess(r, parseReqs(c.reqs), strings.Split(c.sched, ","), "sess-corpus")
 	}
@@ -241,8 +255,16 @@ func Run(r *common.Run) error {
 		r.Notes = append(r.Notes, "race-detector run: concurrent scenarios and corpora only")
 		return nil
 	}
+	if len(r.Failures) >= 12 || r.Hist["problem"] >= 8 {
+		// the session core is broken: the failing inputs are recorded, every further domain would
+		// only add watchdogs (round E self-test: a lock held across the hand-off cost > 10 minutes)
+		r.Notes = append(r.Notes, fmt.Sprintf("%d oracle failures in the corpora: the remaining domains were not run", len(r.Failures)))
+		return nil
+	}
 	// the helpers that own the response they wait for, over every reply shape
 	runWraps(r)
+	// the key a call waits under against the id on the wire; addresses of request and reply
+	runKeys(r)
 	// the listener's table of expected streams
 	runExpects(r)
 	// the waits of one in-band bytestream: blocked Read / Write / Close against peer packets on
@@ -321,7 +343,7 @@ func replayable(trace string) []string {
 			continue
 		}
 		switch t[0] {
-		case 'R', 'H', 'T', 'U':
+		case 'R', 'H', 'T', 'U', 'A':
 			continue
 		}
 		out = append(out, t)
